@@ -38,12 +38,12 @@ JudgeContent(stype, sec, exp, got) ==
        IN IF ~shape THEN "list:shape"
           ELSE IF r.note # "" THEN "drift:" \o r.note
           ELSE IF r.blankin THEN "drift:blank-line-inside-item"
-          ELSE IF r.blanksub
-          THEN \* SkBlankRestarts: judged only as far as both readings agree
-               IF got[1] = exp.toks[1] /\ Balanced(gl) /\ Range(ItemTexts(gl)) \subseteq Range(ItemTexts(el))
-               THEN "list:" \o stype \o ":blank-line-before-subitem" ELSE "list:tree"
           ELSE IF got[1] # exp.toks[1] THEN "list:intro"
           ELSE IF r.contind THEN "drift:continuation-indent"
+          ELSE IF r.blanksub
+          THEN \* "Blank lines between items are optional and are ignored": the same tree as without them, judged in full (exp is
+               \* that tree: BlankLine leaves the stack alone); the clause names the rule that such a section exercises
+               "list:" \o stype \o ":blank-line-before-subitem"
           ELSE IF ~Balanced(gl) THEN "list:unbalanced"
           ELSE IF ItemTexts(gl) # ItemTexts(el) THEN "list:item-text"
           ELSE IF ItemDepths(gl) # ItemDepths(el) THEN "list:nesting"
